@@ -566,12 +566,19 @@ def classImplementsOnly(cls, *interfaces):
     spec._only_for = cls
     spec.__bases__ = ()
     _classImplements_ordered(spec, interfaces, ())
-    # Shared instance declarations for *cls* and its subclasses left out the
-    # interfaces the class implemented when they were created. That may just
-    # have changed, so don't hand them out to any more objects.
+    # Shared instance declarations for *cls*, its subclasses and every other
+    # class whose specification builds on this one (``classImplements(other,
+    # implementedBy(cls))``) left out the interfaces the class implemented
+    # when they were created. That may just have changed, so don't hand
+    # them out to any more objects.
     if isinstance(cls, type):
         for key in list(InstanceDeclarations.keys()):
-            if key and isinstance(key[0], type) and issubclass(key[0], cls):
+            if not key or not isinstance(key[0], type):
+                continue
+            other = key[0].__dict__.get('__implemented__')
+            if issubclass(key[0], cls) or (
+                isinstance(other, Implements) and other.isOrExtends(spec)
+            ):
                 InstanceDeclarations.pop(key, None)
 
 
